@@ -322,12 +322,14 @@ def shrink_case(ctx, combo, idx):
         verdict = "rounding_level"
     elif monotone and halves:
         verdict = "shrinks"
-    elif es[2] < es[0]:
-        verdict = "decreases_but_not_as_stated"
     else:
-        verdict = "no_decrease"
-        H.violation_once(ctx, dict(key, clause="no_decrease"),
-                         f"adjoint-vs-backprop gradient gap does not decrease at all under dt -> dt/16: e = {es}")
+        # the literal, weak reading of "converge" (DESIGN 6/C09 (iv)): e(dt/16) < e(dt/4) < e(dt) and e(dt/16) <= e(dt)/2.
+        # On the unchanged tree every accepted combination has e(dt/16)/e(dt) <= 0.2; a gradient with a bias that does
+        # not vanish with dt keeps the ratio near 1.
+        verdict = "decreases_but_not_as_stated" if es[2] < es[0] else "no_decrease"
+        H.violation_once(ctx, dict(key, clause="no_convergence"),
+                         f"adjoint-vs-backprop gradient gap does not shrink under dt -> dt/4 -> dt/16 as a convergent "
+                         f"gradient does (monotone, and at least halved): e = {es}, e(dt/16)/e(dt) = {es[2] / es[0]:.3f}")
     return dict(combo=[ty, noise, method, am], e=es, verdict=verdict)
 
 
